@@ -132,13 +132,14 @@ theorem error_missing_positionals (initial : Option Ctx) (registry : List Ctx) (
   parseArgv_finish initial registry ign argv m _ hrun (finish_missing_positional m c hfa hc hm)
 
 /-- (d) AMBIGUITY AFTER AN OPTIONAL-VALUE FLAG.  While an optional-value flag has not received a value, a token that is
-    not a flag of the context is refused as ambiguous when it names a task or when positionals are still unfilled. -/
+    not a flag of the context — nor, inside a task, a core flag (`hncf`) — is refused as ambiguous when it names a task or
+    when positionals are still unfilled. -/
 theorem error_ambiguous_after_optional (m : M) (c : Ctx) (a : Arg) (tok : Tok) (hst : m.st ≠ .unknown) (hc : m.ctx = some c)
-    (hf : assoc? tok c.flags = none) (hi : assoc? tok c.inverse = none)
+    (hf : assoc? tok c.flags = none) (hi : assoc? tok c.inverse = none) (hncf : m.coreFlagInTask tok = false)
     (hfa : m.flagArg = some a) (ht : a.takesValue = true) (ho : a.spec.optional = true) (hr : a.raw = none)
     (hamb : c.missingPositional ≠ [] ∨ (m.lookupCtx tok).isSome = true) :
     handle m tok = .error (.parse "ambiguous" tok) :=
-  handle_ambiguous m c a tok hst hc hf hi hfa ht ho hr hamb
+  handle_ambiguous m c a tok hst hc hf hi hncf hfa ht ho hr hamb
 
 /-! ## … and ONLY in the documented situations (converse direction of `error_iff_situation`)
 
